@@ -418,12 +418,28 @@ def requestTy (m : Message) : Ty := .ref (shortName m.fullName)
 
 /-! ### the object the emitted TS server passes to a handler (URL-bound part) -/
 
-/-- `Number(text)` on the texts the harness sends: decimal integers exactly, `""` is `0`, anything
-else an opaque float token. -/
+/-- the natural number nearest to `n` that an IEEE-754 double represents exactly (53-bit
+significand, round half to even): what `Number("<decimal integer>")` evaluates to in V8. -/
+def roundDoubleNat (n : Nat) : Nat :=
+  if n < 2 ^ 53 then n else
+  let e := Nat.log2 n + 1 - 53
+  let q := n / 2 ^ e
+  let r := n % 2 ^ e
+  let half := 2 ^ (e - 1)
+  let q' := if half < r || (r == half && q % 2 == 1) then q + 1 else q
+  q' * 2 ^ e
+
+def roundDouble : Int → Int
+  | .ofNat n => .ofNat (roundDoubleNat n)
+  | .negSucc n => -(Int.ofNat (roundDoubleNat (n + 1)))
+
+/-- `Number(text)` on the texts the harness sends: a decimal integer becomes the nearest double
+(exact below 2^53; above it the documented precision loss of `int64_encoding = NUMBER`), `""` is
+`0`, anything else an opaque float token. -/
 def jsNumber (s : Str) : Json :=
   if s = [] then .num (.int 0)
   else match parseSigned s with
-    | some i => .num (.int i)
+    | some i => .num (.int (roundDouble i))
     | none => .num (.float s)
 
 /-- `generateQueryParamField`: conversion chosen by `TSScalarTypeForField`. -/
